@@ -119,6 +119,17 @@ def make_case(rng, measure):
     else:
         kind2 = gen.pick(rng, ['pos', 'ties', 'neg', 'eucl'])
     v2 = gen.rdm_vectors(rng, n2, n_cond, kind2)
+    ustore = False
+    if kind == 'eucl' and kind2 == 'eucl' and rng.integers(3) == 0:
+        # squared distances of points with whole-number coordinates (embeddable, whole numbers): stored as unsigned ints
+        def int_eucl(n):
+            out = []
+            for _ in range(n):
+                pts = rng.integers(-3, 4, size=(n_cond, n_cond))
+                d = ((pts[:, None, :] - pts[None, :, :]) ** 2).sum(-1)
+                out.append(d[np.triu_indices(n_cond, 1)])
+            return np.array(out, dtype=float)
+        v1, v2, ustore = int_eucl(n1), int_eucl(n2), True
     if kind == 'ties' and kind2 == 'ties' and rng.integers(2):
         # ordinal judgements stored as integers: the measure of the same numbers must not depend on their dtype
         v1, v2 = v1.astype(np.int64), v2.astype(np.int64)
@@ -139,7 +150,7 @@ def make_case(rng, measure):
         # (small units are where absolute tolerances in shortcuts bite, so they get a third of the matrix cases)
         expo = [-12, -11, -10, -9, -4, 0, 0, 3, 6] if sk == 'matrix' else [-12, -9, -4, 0, 0, 0, 3, 6]
         sigma = sigma * 10.0 ** float(gen.pick(rng, expo))
-    return dict(measure=measure, n_cond=n_cond, v1=v1, v2=v2, kind=kind, kind2=kind2, sk=sk, sigma=sigma)
+    return dict(measure=measure, n_cond=n_cond, v1=v1, v2=v2, kind=kind, kind2=kind2, sk=sk, sigma=sigma, ustore=ustore)
 
 
 def degenerate(case):
@@ -161,18 +172,28 @@ def run_case(ctx, case):
     sig = dict(measure=m, sigma=case['sk'], values=case['kind'], ties=ties,
                shape=f'{v1.shape[0]}x{v2.shape[0]}', n_cond=n)
     rt, at = tol_of(m, case['sk'])
+    if m.startswith('bures'):
+        # the matrix square roots lose absolute accuracy in proportion to the magnitude of the kernels
+        at = at * max(1.0, float(np.abs(v1).max()), float(np.abs(v2).max()))
     as_rdms = bool(rng.integers(2))
-    a = RDMs(v1.copy()) if as_rdms else v1.copy()
-    b = RDMs(v2.copy()) if as_rdms else v2.copy()
+    st = (lambda v: v.astype(np.uint16)) if case.get('ustore') else (lambda v: v.copy())
+    a = RDMs(st(v1)) if as_rdms else st(v1)
+    b = RDMs(st(v2)) if as_rdms else st(v2)
     # half of the covariance arguments arrive in a preallocated buffer that is overwritten from case to case (same
     # object, new values), the other half as fresh arrays
-    kw = {'sigma_k': None if sigma is None else (gen.reused_buffer(sigma) if rng.integers(2) else sigma.copy())} \
+    how = int(rng.integers(3))     # ... or as a Fortran-ordered array; whichever way, the caller's array stays as it was
+    kw = {'sigma_k': None if sigma is None else (gen.reused_buffer(sigma) if how == 0 else
+                                                 np.asfortranarray(sigma) if how == 1 else sigma.copy())} \
         if m in ('cosine_cov', 'corr_cov') else {}
     wit = lambda **x: dict(measure=m, v1=v1, v2=v2, sigma_k=sigma, n_cond=n, **x)  # noqa: E731
     ok, got = ctx.guarded('definition:' + m, sig, compare, a, b, method=m, data=wit, **kw)
     if not ok:
         return
     got = np.asarray(got)
+    if kw.get('sigma_k') is not None and not np.array_equal(np.asarray(kw['sigma_k']), sigma):
+        ctx.fail('definition:' + m, dict(sig, what='sigma_k_modified'), f'compare(..., {m!r}) altered the sigma_k array it '
+                 f'was given', wit())
+        return
     ctx.case('definition:' + m, sig, sample={'measure': m, 'v1': v1[:1], 'v2': v2[:1], 'sigma_k': case['sk']})
     if m == 'tau-a' and ties:
         ctx.count('tau_a_tie_cases')
